@@ -48,6 +48,9 @@ type Batch struct {
 	LeaderEpoch    int32
 	SnappyUnframed bool // raw snappy block instead of xerial framing
 	MaxTSMismatch  bool // decoder: header maxTimestamp differs from the largest record timestamp
+	// Raw, when set, is what Encode returns (the stored bytes of the batch, computed once by a scenario that serves
+	// the same log many times: compressing on every fetch is the dominant cost otherwise). Never set by the engine.
+	Raw []byte
 }
 
 func (b *Batch) FirstOffset() int64 {
@@ -169,6 +172,9 @@ func encMsgV01(w *W, magic int8, attrs int8, offset, ts int64, key, value []byte
 
 // Encode returns the bytes of the batch as stored in a log / sent in a fetch response.
 func (b *Batch) Encode() []byte {
+	if b.Raw != nil {
+		return b.Raw
+	}
 	var w W
 	switch b.Format {
 	case 0, 1:
